@@ -93,7 +93,14 @@ def main():
     tier = args.tier if args.tier in ('quick', 'thorough') else 'quick'
     seed = int(os.environ.get('VERIF_SEED', '0') or 0)
     env = dict(os.environ, VERIF_CHILD='1')
-    prog = os.path.join(os.environ.get('TMPDIR', '/tmp'), f'verif_progress_{os.getpid()}.json')
+    # everything the monitor and the code under test write goes under one private scratch directory that is removed
+    # afterwards, also when the child is killed by a crash of the code under test
+    import shutil
+    import tempfile
+
+    scratch = tempfile.mkdtemp(prefix='verif_run_')
+    env['TMPDIR'] = scratch
+    prog = os.path.join(scratch, f'verif_progress_{os.getpid()}.json')
     env['VERIF_PROGRESS'] = prog
     t0 = time.time()
     watchdog = int(os.environ.get('VERIF_WATCHDOG_S', '14400'))
@@ -110,7 +117,7 @@ def main():
                 last = json.load(open(prog))
             except Exception:
                 last = None
-            os.unlink(prog)
+        shutil.rmtree(scratch, ignore_errors=True)
     if rc in (0, 1, 2):
         return rc
     # the child died: the code under test crashed the process
